@@ -209,6 +209,7 @@ def emit_tree(t, n, base):
     for k, b, r in base:
         db.add(k, b, r)
     toks, leaves, extras = [], [], []
+    db.xextras = []          # per live extra, in parser order: (extra bits, tuple of ref indices belonging to the extra)
 
     def go(t, m, prefix, live):
         if t.get('pruned') and live:
@@ -219,20 +220,23 @@ def emit_tree(t, n, base):
         s = t['label']
         lb = enc_label(s, m, t['kind'], t['v'])
         ex = t['extra']
+        xr = tuple(t.get('xrefs', ()))       # references that belong to extra:Y (leaf: before the value's; fork: after left/right)
         if 'leaf' in t:
             bits, refs = t['leaf']
             toks.append(f"L:{s or '-'}:{t['kind']}:{t['v']}:{ex or '-'}:{bits or '-'}:{'.'.join(map(str, refs)) or '-'}")
             if live:
                 if ex:
                     extras.append(int(ex, 2))
+                    db.xextras.append((ex, xr))
                 leaves.append((prefix + s, bits, tuple(refs)))
-            return db.add(G.ORD, lb + ex + bits, refs)
+            return db.add(G.ORD, lb + ex + bits, xr + tuple(refs))
         toks.append(f"F:{s or '-'}:{t['kind']}:{t['v']}:{ex or '-'}")
         a = go(t['l'], m - len(s) - 1, prefix + s + '0', live)
         b = go(t['r'], m - len(s) - 1, prefix + s + '1', live)
         if live and ex:
             extras.append(int(ex, 2))
-        return db.add(G.ORD, lb + ex, (a, b))
+            db.xextras.append((ex, xr))
+        return db.add(G.ORD, lb + ex, (a, b) + xr)
 
     root = go(t, n, '', True)
     return db, root, toks, leaves, extras
